@@ -22,6 +22,8 @@ fn main() {
     let verif_dir = std::env::var("VERIF_DIR").unwrap_or_else(|_| "/verif".to_string());
     let repo = std::env::var("VERIF_REPO").unwrap_or_else(|_| "/repo".to_string());
     env::install_logger();
+    // panics of the subject are caught and reported as cases, not printed
+    std::panic::set_hook(Box::new(|_| {}));
     if let Ok(n) = std::env::var("VERIF_THREADS") {
         if let Ok(n) = n.parse::<usize>() {
             rayon::ThreadPoolBuilder::new().num_threads(n).build_global().ok();
